@@ -347,7 +347,7 @@ def run(ctx):
                       {"kinds": keys_bad, "translator": ktx_err, "coq_log_tail": log[-800:] if isinstance(log, str) else ""}, found=False)
     dist = {"fault_histories": {k: len(v) for k, v in fault_cases.items()}, "process_end_states_compared": n_cmp,
             "processes_killed": n_killed, "killed_leaving_an_unloadable_file": n_inside, "roundtrip": rt_hist}
-    return {"evaluations": n_fault + rt_n,
+    return {"evaluations": n_cmp + rt_n,   # unit: process end states compared + round-trip cases
             "distinct_nontrivial": n_killed + rt_nontriv,
             "rule": "fault injection: every process-level history with every crash point of every step (crash points = action counts the real code produced; np.savez counts 2), "
                     "%s; a process end state is non-trivial when the process was killed. Round trips: a case is non-trivial when some bond dimension >= 2" % (
